@@ -1,5 +1,6 @@
 import Cuke.Model.SchedLts
 import Cuke.Model.AttemptShape
+import Cuke.Model.Contract
 /-
   Monitors of C03–C08: the properties' own wording evaluated on the log of a REAL run
   (events in send order, probes, callbacks). Independent of the acceptor's model state.
@@ -78,6 +79,8 @@ def framed (c : SCfg) (ls : List Label) : Option String :=
       | some fr => some s!"rule {fr.1}/{fr.2}: brackets not exact"
       | none =>
         if rxEvents ls != evs then some "events received from the stream differ from the events sent (lost / reordered)"
+        -- the Runner's stream is inside the contract `Normalize` relies on (hypothesis of C11.norm_contract_whole_run)
+        else if !Contract evs then some "the event stream is rejected by the Normalize contract ledger (Cuke.Contract)"
         else none
 
 /-- attempt identity in events -/
